@@ -19,6 +19,7 @@ Proof.
   - intros H. destruct (H 10 [2]) as (w & Hw & _).
     + vm_compute. right; left; reflexivity.
     + discriminate.
+    + reflexivity.
     + vm_compute in Hw. exact Hw.
 Qed.
 
@@ -87,5 +88,23 @@ Proof.
   intros H. destruct (H 20 [2]) as (w & Hw & _).
   - vm_compute. left; reflexivity.
   - discriminate.
+  - reflexivity.
   - vm_compute in Hw. exact Hw.
 Qed.
+
+(* Seeded change `far_future_shared_id`: all far-future Sleeps share one id.  A slot identifies
+   its entries by id only and remove(id) takes the first match.  Entries written with the task
+   whose waker they hold: task B (1) registered first, then task A (0), both with id 7 for the
+   same deadline.  A re-arms its timer: the removal it asks for takes out B's entry and leaves
+   A's stale one -- at the deadline task A is woken, task B never is.  With distinct ids
+   (7 and 8) B's entry stays. *)
+Fixpoint remove_first (id : N) (es : list (N * nat)) : list (N * nat) :=
+  match es with
+  | [] => []
+  | (i, k) :: r => if i =? id then r else (i, k) :: remove_first id r
+  end.
+
+Lemma C05_shared_id_refuted :
+  remove_first 7 [(7, 1%nat); (7, 0%nat)] = [(7, 0%nat)] /\
+  remove_first 8 [(7, 1%nat); (8, 0%nat)] = [(7, 1%nat)].
+Proof. split; reflexivity. Qed.
